@@ -435,6 +435,9 @@ def call_method(ip, st, recv, name, pos, kws, node):
             return val_method(ip, st, recv, name, pos, kws)
         if isinstance(cell, PyDictCell):
             return pydict_method(ip, st, recv, cell, name, pos, kws)
+        if isinstance(cell, ObjCell) and cell.cls == "$file":
+            from .lib import file_method
+            return file_method(ip, st, recv, name, pos)
         if isinstance(cell, IterCell):
             if name == "__next__":
                 from .stmts import iter_next
@@ -449,6 +452,15 @@ def call_method(ip, st, recv, name, pos, kws, node):
     if isinstance(recv, Opaque) and recv.sort == "Key":
         from .dicts import key_method
         return key_method(ip, st, recv, name, pos, kws)
+    if isinstance(recv, Opaque) and recv.sort == "V" and name == "write" and len(pos) == 1 and "$fs" in st.notes:
+        # a data object that writes itself to the given path: the file exists afterwards, its content is unspecified
+        from .lib import need_fs, fs_store
+        lv = need_fs(ip.reg)
+        c = ip.reg.new("objfile", lv)
+        st.assume(CMP(">=", ip.reg.l_len(c), I(0)))
+        fs_store(ip, st, pos[0], "(fsome %s)" % c.s)
+        ip.assumptions.add("a data object with a write(path) method creates / replaces exactly the file at that path")
+        return [(st, NONE)]
     if isinstance(recv, (Tup, View)):
         if name == "__iter__":
             return [(st, ip.new_cell(st, IterCell(ip.as_view(st, recv), I(0))))]
@@ -463,6 +475,9 @@ def list_method(ip, st, recv, name, pos, kws):
     reg = ip.reg
     t = ip.deref(st, recv)
     el = reg.lst_elem[t.sort]
+    if name in ("append", "extend", "insert") and pos:
+        from .dicts import note_store
+        note_store(ip, st, recv, pos[-1])
     if name == "append":
         v = elem_term(ip, st, pos[0], el)
         ip.store(st, recv, reg.l_append(t, v))
@@ -531,6 +546,9 @@ def elem_term(ip, st, v, el):
 
 def pylist_method(ip, st, recv, cell, name, pos, kws):
     items = cell.items
+    if name in ("append", "extend", "insert") and pos:
+        from .dicts import note_store
+        note_store(ip, st, recv, pos[-1])
     if name == "append":
         st.heap[recv.cid] = PyListCell(items + [pos[0]])
         return [(st, NONE)]
@@ -600,6 +618,8 @@ def pydict_method(ip, st, recv, cell, name, pos, kws):
         return [(st, ip.items_view(list(cell.items.values())))]
     if name == "update":
         src = pos[0]
+        from .dicts import note_store
+        note_store(ip, st, recv, src)
         if isinstance(src, Ref) and isinstance(st.heap[src.cid], PyDictCell):
             new = dict(cell.items)
             new.update(st.heap[src.cid].items)
